@@ -11,8 +11,8 @@ for p in sorted(glob.glob('/verif/seeded/*/meta.json')):
     for c, v in sorted(m.get('checks_run', {}).items()):
         tier = 'thorough' if '--tier thorough' in v['cmd'] else 'quick'
         if v['exit'] == 1:
-            hit.append('%s: %s (%s)' % (c.split('@')[0], v.get('first_violation_class'), tier))
+            hit.append('%s: %s (%s%s)' % (c.split('@')[0], v.get('first_violation_class'), tier, '; ' + v['note'] if v.get('note') else ''))
         else:
-            miss.append('%s (%s, %s)' % (c.split('@')[0], tier, v.get('runs')))
+            miss.append('%s (%s, %s%s)' % (c.split('@')[0], tier, v.get('runs'), '; ' + v['note'] if v.get('note') else ''))
     files = ', '.join('`%s`' % f.replace('src/', '') for f in m['files_changed'])
     print('| %s | %s | %s | %s | %s | %s |' % (m['id'], m['property'], files, m['needs_to_manifest'], '; '.join(hit) or '**none**', '; '.join(miss) or '-'))
